@@ -14,6 +14,11 @@ SEQUENCE = ['Tuple', 'Chain']
 LEAF = ['Const', 'VariableIdentifierWrite', 'VariableIdentifierRead']
 
 
+def fmt_eff(e):
+    from absint import fmt
+    return '%s(%s)' % (e[0], ', '.join(fmt(a) for a in e[2]))
+
+
 class TableError(Exception):
     pass
 
@@ -140,11 +145,10 @@ def char_table(prog):
     probe = 'a'
     while probe in chars:
         probe = chr(ord(probe) + 1)
-    res = []
-    env = {1: C(probe)}
-    effects = []
-    it._run(f, 0, env, 0, res, effects, set())
-    out[None] = dict(outcomes=sorted({describe(r) or '?' for r in res}), callees=[e[0] for e in effects], resolved=[e[1] for e in effects])
+    ps = it.paths(f, [C(probe)])
+    effects = [e for p in ps for e in p[1] if not e[0].startswith('<')]
+    out[None] = dict(outcomes=sorted({describe(r) or '?' for r, _ in ps}), callees=[e[0] for e in effects], resolved=[e[1] for e in effects],
+                     by_branch=[(describe(r), [fmt_eff(e) for e in eff if e[0] == '<branch>']) for r, eff in ps])
     return out
 
 
